@@ -4,8 +4,9 @@
 # /verif, so that neither /repo nor /verif's build state is disturbed.  Test bed under /tmp/mt.
 set -e
 PATCH=$1; [ "$PATCH" != "none" ] && PATCH=$(realpath "$PATCH"); PROP=$2; TIER=${3:-quick}
-MT=/tmp/mt
+MT=/tmp/mt/$PROP            # one test bed per property (concurrent runs of different properties do not interfere)
 mkdir -p $MT
+exec 9>$MT/.lock; flock 9    # serialise runs on the same property
 if [ ! -d $MT/repo/.git ] && [ ! -f $MT/repo/.git ]; then
   git -C /repo worktree add -f --detach $MT/repo HEAD >/dev/null 2>&1
 fi
